@@ -21,6 +21,11 @@ gmsh meshes; 4 naming conventions x 3 atmosphere types x 2 units x 3 block order
 columns with surface elevations; 0..N wells with 2..6 points; upper / lower case right-justified
 names; coordinates up to the ten-column limit.
 
+Well tracks are compared to the ONE decimal their field (F10.1) carries; everything else to two.
+A case is skipped (and counted under `skipped_outside_quantifier`) when a coordinate does not fit
+ten columns, or when cutting a column surface and a layer bottom to two decimals would change their
+order (that changes which blocks exist, so the derived name lists cannot be the same).
+
 usage: c03_geofile.py <tier> <seed>
 """
 import sys, os, json, time, random, math, tempfile, shutil, signal, io, contextlib, traceback
@@ -28,6 +33,7 @@ import multiprocessing as mp
 from collections import Counter
 
 REPO = os.environ.get('PYTOUGH_REPO', '/repo')
+sys.dont_write_bytecode = True          # never write inside the checkout
 sys.path.insert(0, REPO)
 import warnings
 warnings.filterwarnings('ignore')
